@@ -95,7 +95,7 @@ def gen_chart(rng, tempo, t0, style):
             kind = rng.choice(KINDS)
             t = time_of(tempo, t0, beat)
             if style == "offgrid" and rng.random() < 0.5:
-                t += Fr(rng.randint(-40, 40), 7)
+                t = max(t + Fr(rng.randint(-40, 40), 7), t0)      # never before the first tempo point
             if kind in ("hold", "roll"):
                 d2 = rng.choice(dens)
                 eb = beat + Fr(rng.randrange(1, 8 * d2), d2)
@@ -373,7 +373,9 @@ def run(case, drv):
     same_tempo = all(c["bpms"] == content["charts"][0]["bpms"] for c in content["charts"]) if content["charts"] else True
     first_off = content["charts"] and content["charts"][0]["bpms"] and F(content["charts"][0]["bpms"][0][0])
     in_q = bool(content["charts"]) and same_tempo and content["charts"][0]["bpms"] != [] and \
-        close(F(content["hdr"]["offset"]), first_off) and all(c["chart_type"] in KEYED for c in content["charts"])
+        close(F(content["hdr"]["offset"]), first_off) and all(c["chart_type"] in KEYED for c in content["charts"]) and \
+        all(F(n[2]) >= first_off - Fr(1, 2 ** 20) and 0 <= n[1] < KEYED[c["chart_type"]]
+            for c in content["charts"] for n in c["notes"])
     if impl[0] == "err":
         agree = model.get("err") == impl[1]
         if in_q:
